@@ -435,6 +435,7 @@ type FuncContract struct {
 }
 
 type ContractSet struct {
+	TypeInvs map[string][]*Clause // "pkgpath.TypeName" -> invariants over "self"
 	Specs  map[string]*SpecFunc
 	Axioms []*Axiom
 	Lemmas []*Lemma
@@ -445,7 +446,7 @@ type ContractSet struct {
 var clauseKeywords = map[string]bool{
 	"spec": true, "rec": true, "axiom": true, "lemma": true, "func": true, "props": true,
 	"requires": true, "ensures": true, "loop": true, "assigns": true, "pure": true, "sweep": true,
-	"trusted": true, "end": true, "at": true, "recovers": true, "panics": true, "measure": true, "use": true, "opt": true,
+	"trusted": true, "end": true, "at": true, "typeinv": true, "unchecked": true, "recovers": true, "panics": true, "measure": true, "use": true, "opt": true,
 }
 
 func parseParams(s string) ([]SpecParam, error) {
@@ -596,6 +597,23 @@ func (cs *ContractSet) ParseContractText(pkgPath, file, text string) error {
 				lm.Body = e
 				cs.Lemmas = append(cs.Lemmas, lm)
 			}
+		case "typeinv":
+			// typeinv TypeName [tags]: expr over self
+			k := strings.Index(rc.rest, ":")
+			if k < 0 {
+				return errf(fmt.Errorf("bad typeinv"))
+			}
+			head := strings.TrimSpace(rc.rest[:k])
+			tag, props, _ := parseTags(headTags(head))
+			tname := strings.TrimSpace(strings.SplitN(head, "[", 2)[0])
+			e, err := ParseSpecExpr(rc.rest[k+1:])
+			if err != nil {
+				return errf(err)
+			}
+			if cs.TypeInvs == nil {
+				cs.TypeInvs = map[string][]*Clause{}
+			}
+			cs.TypeInvs[pkgPath+"."+tname] = append(cs.TypeInvs[pkgPath+"."+tname], &Clause{Kind: "typeinv", Tag: tag, Props: props, Src: strings.TrimSpace(rc.rest[k+1:]), Expr: e, File: file, Line: rc.line})
 		case "func":
 			name := strings.TrimSpace(rc.rest)
 			cur = &FuncContract{Pkg: pkgPath, Name: name, File: file, Line: rc.line, Extra: map[string][]string{}}
@@ -622,6 +640,14 @@ func (cs *ContractSet) ParseContractText(pkgPath, file, text string) error {
 				cur.Panics = append(cur.Panics, strings.Fields(rc.rest)...)
 			case "assigns":
 				cur.Assigns = append(cur.Assigns, strings.Fields(strings.ReplaceAll(rc.rest, ",", " "))...)
+			case "unchecked":
+				// unchecked <obligation suffix after '#'> <reason...>: the obligation is NOT claimed; it is assumed and listed
+				fs := strings.Fields(rc.rest)
+				if len(fs) < 2 {
+					return errf(fmt.Errorf("unchecked needs an obligation anchor and a reason"))
+				}
+				cur.Extra["unchecked"] = append(cur.Extra["unchecked"], fs[0])
+				cur.Extra["unchecked-reason:"+fs[0]] = []string{strings.Join(fs[1:], " ")}
 			case "use", "opt":
 				cur.Extra[rc.kw] = append(cur.Extra[rc.kw], rc.rest)
 			case "requires", "ensures", "measure":
@@ -736,6 +762,19 @@ func splitTop(s string) []string {
 	}
 	if strings.TrimSpace(s[start:]) != "" {
 		out = append(out, strings.TrimSpace(s[start:]))
+	}
+	return out
+}
+
+// AllProps: the properties a clause without its own tag belongs to (function props plus sweep props).
+func (c *FuncContract) AllProps() []string {
+	seen := map[string]bool{}
+	var out []string
+	for _, p := range append(append([]string{}, c.Props...), c.Extra["sweep"]...) {
+		if len(p) >= 3 && p[0] == 'C' && !seen[p] {
+			seen[p] = true
+			out = append(out, p)
+		}
 	}
 	return out
 }
